@@ -24,6 +24,13 @@ def run(ctx):
         j, _ = suites.gen_jobs(ctx, n, tt=False, w=w, faults=0.0, prefix='s%d_' % w, fuel=200000)
         jobs += j
     suites.conformance(ctx, jobs[:300])
+    # lengths of variable-length arrays whose size in bytes wraps around the word: the run must end in stack_overflow, not carry on
+    # with an array that owns no memory
+    wrap = []
+    for w in (3, 4, 8):
+        wrap += [('lw%d_%d' % (w, i), src, a, w, 64, False, 200000)
+                 for i, (src, a, tag) in enumerate(gen_special.fault_programs(ctx.rng, w, 1)) if tag.startswith('two_lengthwrap')]
+    suites.differential(ctx, wrap, None, label='length-wrap')
     seq = [j for j in jobs]
     seq += suites.core_suite(ctx, ctx.budget(120, 2000), configs=((2, 0, False), (2, 3, False), (2, 9, False), (3, 5, False), (4, 7, False), (8, 4, False)), faults=0.0)
     suites.tight_stack(ctx, seq, label='tight-stack-sequential')
